@@ -67,6 +67,20 @@ def oracle(chk, inp, newer_cls, older_cls, m, data, schema, ci, old_numbers):
             chk.fail("evolution-changes-presence", inp, "via=%s" % re.hex())
     except Exception as e:
         chk.fail("newer-reader-raises-after-evolution", inp, repr(e))
+    # the unknown fields a message carries are ITS OWN: a copy of the older reader's message that then receives
+    # more records (a merge: parse into an existing instance) re-emits old + new, the original exactly what it had
+    import copy
+    for how in (copy.copy, copy.deepcopy):
+        try:
+            dup = how(old)
+            extra = b"".join(unk_in[:2]) or b"\xf8\x7f\x05"
+            dup.parse(extra)
+            again = bytes(old)
+            if again != re:
+                chk.fail("unknown-fields-shared-with-copy", dict(inp, copied_with=how.__name__, merged_into_copy=extra.hex()),
+                         "original re-emitted %s before and %s after its copy received more records" % (re.hex(), again.hex()))
+        except Exception as e:
+            chk.count("copy_merge_skipped_" + type(e).__name__)
     return re
 
 
